@@ -183,6 +183,7 @@ func (e *Exec) eval(x ast.Expr, c *Ctx) Term {
 	case *ast.FuncLit:
 		c.fr.litOrd++
 		id := e.vc.FreshConst("closure", "Int")
+		e.litVals[id] = v
 		return Term{id, &Type{K: KFunc}}
 	case *ast.KeyValueExpr:
 		return e.eval(v.Value, c)
@@ -384,9 +385,14 @@ func (e *Exec) selector(v *ast.SelectorExpr, c *Ctx) Term {
 		return r
 	}
 	if !c.spec {
-		// method value
-		e.note("method value %s treated as an opaque function value", exprText(v))
-		return Term{e.vc.FreshConst("methodval", "Int"), &Type{K: KFunc}}
+		// method value: remember receiver and method so that a later call through the variable resolves
+		id := e.vc.FreshConst("methodval", "Int")
+		if sel, ok := c.fr.info.Selections[v]; ok && sel.Kind() == types.MethodVal {
+			if fn, ok := sel.Obj().(*types.Func); ok {
+				e.methodVals[id] = methodVal{fn, base}
+			}
+		}
+		return Term{id, &Type{K: KFunc}}
 	}
 	e.errorf("%s: no field %s in %s (spec %s)", e.curPos, v.Sel.Name, base.T, exprText(v))
 	return Term{e.vc.FreshConst("unk", "Int"), tOpaque}
@@ -687,10 +693,16 @@ func (e *Exec) toAny(t Term, st *State) Term {
 	default:
 		box, unbox := e.boxFn(t.T)
 		n := t.S
-		if !isAtom(n) {
-			n = e.vc.Define("boxed", e.Sort(t.T), t.S)
+		if hasBound(n) {
+			// inside a quantifier: use the general axiom instead of an instance
+			srt := e.Sort(t.T)
+			e.vc.Decl("ax:"+box, fmt.Sprintf("(assert (forall ((x!b %s)) (! (= (%s (%s x!b)) x!b) :pattern ((%s x!b)))))", srt, unbox, box, box))
+		} else {
+			if !isAtom(n) {
+				n = e.vc.Define("boxed", e.Sort(t.T), t.S)
+			}
+			e.vc.Fact(fmt.Sprintf("(= (%s (%s %s)) %s)", unbox, box, n, n))
 		}
-		e.vc.Fact(fmt.Sprintf("(= (%s (%s %s)) %s)", unbox, box, n, n))
 		payload = fmt.Sprintf("(%s %s)", box, n)
 	}
 	return Term{fmt.Sprintf("(A_box %d %s)", tag, payload), tAny}
@@ -1089,6 +1101,7 @@ func (e *Exec) assign(lhs ast.Expr, v Term, c *Ctx) {
 		idx := e.eval(l.Index, c)
 		switch base.T.K {
 		case KMap:
+			e.guardWriteThrough(l.X, c)
 			e.mapStore(c, base, idx, v, l)
 			return
 		case KGMap:
@@ -1146,6 +1159,7 @@ func (e *Exec) assignPath(baseExpr ast.Expr, base Term, path []fieldInfo, v Term
 		if !c.spec {
 			e.safetyAssert(c, "nil-deref", fmt.Sprintf("(not (= %s 0))", base.S), "", n)
 			e.guardedBy(c, base, f.Name, n)
+			e.guardWrite(c, base, f.Name, n)
 		}
 		h := e.heapArr(c.st, base.T.Name, f)
 		e.set(c.st, heapKey(base.T.Name, f.Name), Term{fmt.Sprintf("(store %s %s %s)", h.S, base.S, v.S), h.T})
@@ -1367,6 +1381,10 @@ func (e *Exec) floorMul(a, b string) string {
 	e.vc.Decl("fun:floormul", "(declare-fun floormul (Int Int) Int)")
 	e.vc.Decl("fun:gf!multipleOf!Int_Int", "(declare-fun gf!multipleOf!Int_Int (Int Int) Bool)")
 	an, bn := a, b
+	if hasBound(a) || hasBound(b) {
+		e.vc.Decl("ax:floormul", "(assert (forall ((a!b Int) (b!b Int)) (! (=> (and (>= a!b 0) (> b!b 0)) (and (<= (floormul a!b b!b) a!b) (< a!b (+ (floormul a!b b!b) b!b)) (gf!multipleOf!Int_Int (floormul a!b b!b) b!b))) :pattern ((floormul a!b b!b)))))")
+		return fmt.Sprintf("(floormul %s %s)", a, b)
+	}
 	if !isAtom(an) {
 		an = e.vc.Define("fm_a", "Int", a)
 	}
@@ -1378,3 +1396,6 @@ func (e *Exec) floorMul(a, b string) string {
 	e.externs["arithmetic fact: (a/b)*b for a >= 0, b > 0 is the largest multiple of b not above a (non-linear term replaced by floormul + multipleOf)"] = true
 	return fm
 }
+
+// hasBound: the term mentions a variable bound by an enclosing spec quantifier (named x!qN).
+func hasBound(s string) bool { return strings.Contains(s, "!q") }
